@@ -550,3 +550,15 @@ def _tail(self, ghost, name='r__'):
 
 Item._tail_span = _tail_span
 Item.tail = _tail
+
+
+def _end(self, ghost):
+    """ghost statements right before the closing brace of the body (for bodies without a tail expression)"""
+    check_ghost_statements(ghost, self.name)
+    if self._tail_span() is not None:
+        raise LostAnchor(self.name, 'body has a tail expression; use tail()', True)
+    self._add(len(self.orig) - 1, 'ins', 0, ghost.strip() + '\n')
+    return self
+
+
+Item.at_end = _end
